@@ -26,6 +26,13 @@ UW = ["strcmp.0:4", "strlen.0:4", "sb_str.0:4", "g_string_new.0:4", "strdup.0:4"
       "bidib_state_cs_drive.4:10", "bidib_state_cs_drive.5:10", "harness.0:8", "harness.1:8", "strndup.0:4", "strndup.1:4"]
 
 
+def _c08():
+    # "occupancy, detected decoder addresses" of the C07 statement are the C08 step harness (real bm_occ / bm_address /
+    # bm_multiple against a reference on an arbitrary pre-state)
+    from check import borrow
+    return borrow("C08", lambda q: q.name in ("occ", "address-1", "address-2", "multiple-8", "multiple-16"))
+
+
 def queries():
     qs = [Q("fold-%s" % n, "C07_fold.c", SRCS, defs={"KIND": k, "VERIF_GARRAY_CAP": 9}, unwind=5, unwindset=UW)
           for k, n in KINDS]
@@ -33,4 +40,4 @@ def queries():
         qs.append(Q("fold-boost_diagnostic-pairs%d" % np, "C07_fold.c", SRCS,
                     defs={"KIND": 13, "NPAIRS": np, "VERIF_GARRAY_CAP": 9}, unwind=8, unwindset=UW,
                     tier="quick" if np <= 2 else "thorough"))
-    return qs
+    return qs + _c08()
